@@ -127,6 +127,26 @@ def tags_for(ev, clauses):
     return {"clauses": sorted(clauses), "n": c["n"], "lazy": ev["lazy"], "inner_zero": c["inner"][0] == 0}
 
 
+def reuse_probe():
+    """Growth, outside the statement of C12: a detector whose limits were left to the waves is used for two wave functions with
+    different simulated ranges; what it returns for the second should be what a fresh detector returns.  Reported as drift only."""
+    import abtem
+    out = {}
+    try:
+        mk = lambda n: abtem.Probe(energy=ENERGY, semiangle_cutoff=20, gpts=n, extent=8.0).build(lazy=False)
+        a, b = mk(32), mk(64)
+        for name, make in (("FlexibleAnnularDetector(outer=None)", lambda: abtem.FlexibleAnnularDetector(step_size=5.0)),
+                           ("AnnularDetector(outer=None)", lambda: abtem.AnnularDetector(inner=10.0)),
+                           ("PixelatedDetector(max_angle='valid')", lambda: abtem.PixelatedDetector(max_angle="valid"))):
+            d = make()
+            d.detect(a)
+            second, fresh = d.detect(b), make().detect(b)
+            out[name] = bool(second.shape == fresh.shape and np.allclose(np.asarray(second.array), np.asarray(fresh.array)))
+    except Exception as ex:
+        out["error"] = f"{type(ex).__name__}: {ex}"[:200]
+    return out
+
+
 def judge(ctx: Ctx, evs):
     res = ctx.validate("DetectTrace", [[e] for e in evs], "DetectTrace.cfg")
     for e, (ok, bad) in zip(evs, res):
@@ -180,6 +200,11 @@ def run(ctx: Ctx):
         ctx.case(json.dumps(c, sort_keys=True))
     for e in evs[:1]:
         ctx.sample({k: e[k] for k in ("case", "annular", "flex_bins", "flex_width", "flex_offset", "segmented_sum")})
+    reuse = reuse_probe()
+    ctx.notes["growth_detector_reused_for_other_waves_equals_fresh"] = reuse
+    for name, same in reuse.items():
+        if same is not True:
+            ctx.drift.append({"what": "growth (outside C12): a default-limit detector used for a second wave function keeps the limits of the first", "detector": name})
     judge(ctx, evs)
 
 
